@@ -115,6 +115,38 @@ def check_pair(acc, pendulum, za, ia, zb, ib, clone_b=False, native=True):
                     acc.mismatch(name, cls, case, got, want)
 
 
+def check_gap_native(acc, pendulum, z, t, ob, oa):
+    """Native operands whose wall time does not exist (inside a spring-forward gap; they arise from native wall-clock
+    arithmetic): the native class reads them through utcoffset() of their fold, and subtracting them from a DateTime
+    must give what the native subtraction gives."""
+    if oa <= ob or oa - ob > 7200 or t + ob < -62135596800 + 10 * 86400:
+        return
+    zi = _ZI.get(z)
+    if zi is None:
+        zi = _ZI[z] = zoneinfo.ZoneInfo(z)
+    w = (t + ob) * US + ((oa - ob) // 2) * US + 123456          # a wall time in the middle of the gap
+    f = seeds.fields_of_wall(w)
+    for fold in (0, 1):
+        n = dt_.datetime(*f, tzinfo=zi, fold=fold)
+        if obs.offset_s(n) != (ob if fold == 0 else oa):
+            acc.c["skipped_db_mismatch"] += 1       # zoneinfo reads the gap differently than the reference expects
+            continue
+        for dx in (-5 * 3600 * US, 9 * 3600 * US + 1):
+            ix = t * US + dx
+            x = obs.utc_dt(pendulum, ix)
+            xb = obs.native_utc(ix)
+            case = {"kind": "gapnat", "z": z, "t": t, "ob": ob, "oa": oa}
+            for name, fn, want in (("sub-native-right", lambda: x - n, obs.td_us(xb - n)), ("sub-native-left", lambda: n - x, obs.td_us(n - xb))):
+                acc.c["evaluations"] += 1
+                acc.c["transitions"] += 1
+                try:
+                    got = obs.td_us(fn())
+                except Exception as e:  # noqa: BLE001
+                    got = f"raises {type(e).__name__}"
+                if got != want:
+                    acc.mismatch(name, "nonexistent-native-wall", dict(case, fold=fold, dx=dx), got, want)
+
+
 def _native(z, inst):
     nu = obs.native_utc(inst)
     if isinstance(z, int):
@@ -150,6 +182,8 @@ def run_shard(shard):
             trs = seeds.zone_transitions(z)
             trs = seeds.pick_transitions(trs, shard["limit"], shard["seed"]) if shard["limit"] else trs
             for j, tr in enumerate(trs):
+                with worker.guarded(acc, "sub", {"kind": "gapnat", "z": z, "t": tr[0], "ob": tr[1], "oa": tr[2]}):
+                    check_gap_native(acc, pendulum, z, *tr)
                 ps = seeds.probe_instants(*tr, full=True)
                 acc.c["states"] += len(ps)
                 for ia in ps:
@@ -182,7 +216,9 @@ def run_shard(shard):
 
 def replay_case(case, acc):
     import pendulum
-    if case["kind"] == "pair":
+    if case["kind"] == "gapnat":
+        check_gap_native(acc, pendulum, case["z"], case["t"], case["ob"], case["oa"])
+    elif case["kind"] == "pair":
         check_pair(acc, pendulum, case["za"], case["ia"], case["zb"], case["ib"], case["clone_b"], native=True)
     else:
         check_dates(acc, pendulum, case["d1"], case["d2"])
